@@ -22,10 +22,11 @@
   * `usize` arithmetic that the code performs is explicit (`cadd`/`csub`, `checked_add`,
     `saturating_add`), so a panic is a visible outcome (`Outcome.panic`).
 
-  The model mirrors the code *with the repairs of fixes/B-04…B-07, B-12 applied* (DESIGN §8 #4–#7:
-  `try_reverse_indexes`, `IndexRange::try_mask`, saturating `clip`, checked
-  `range_exceeds_bounds`, and B-12: `TensorTranspose::data_layout`); the legacy formulas are kept as `…Legacy` for reference, they are what
-  the unchanged tree executes and where the correspondence reports the defects.
+  The model mirrors the code *with the repairs of DESIGN §8 #4–#7* (`try_reverse_indexes`,
+  `IndexRange::try_mask` / `map_indexes_by_mask_checked`, saturating `clip`, checked
+  `range_exceeds_bounds`: `fix:` commits in /repo) *and of fixes/B-12* (`TensorTranspose::
+  data_layout`, found by this property's check); the legacy formulas are kept as `…Legacy` for
+  reference — they are where the correspondence reported the defects on the unrepaired tree.
 
   Reused by C09 (iterators), C10, C13, C03.  Core Lean only.
 -/
